@@ -261,3 +261,133 @@ Proof.
   - rewrite Da. exact (proj1 (self_partner_l _ _ _ _ _ _ _ Hd Hg Hm)).
   - destruct (getitem_h_grows_l st c idx dr h Hwf) as (ext & E). rewrite E. apply deref_app_l. apply Hwf.
 Qed.
+
+(* ---------- labels: to_one_hot_vector allocates, returned labels are fresh objects ---------- *)
+Lemma to_one_hot_h_grows h l st n h' a : to_one_hot_vector_h h l st n = Some (h', a) ->
+  exists ext, h' = h ++ ext.
+Proof.
+  unfold to_one_hot_vector_h, l_alloc. destruct l.
+  - destruct (to_one_hot_vector (LInt y) n); cbn; intro E; inversion E. eexists; reflexivity.
+  - intro E; inversion E. exists []. rewrite app_nil_r. reflexivity.
+Qed.
+
+Lemma to_one_hot_h_int_fresh h y st n h' a : to_one_hot_vector_h h (LInt y) st n = Some (h', a) ->
+  a = length h /\ exists v, to_one_hot_vector (LInt y) n = Some v /\ h' = h ++ [v].
+Proof.
+  unfold to_one_hot_vector_h, l_alloc. destruct (to_one_hot_vector (LInt y) n) as [v|]; cbn; intro E; inversion E.
+  split; [reflexivity|]. exists v. auto.
+Qed.
+
+Lemma returned_label_is_fresh_l ds c idx dr h h' a s rest :
+  getitem_xclass ds c idx dr = Ok (s, rest) ->
+  label_request_h ds c idx dr h = Some (h', a) ->
+  (s_mix s <> None \/ exists y, ds_cls ds idx = LInt y) ->
+  (length h <= a)%nat /\ (a < length h')%nat /\ exists ext, h' = h ++ ext.
+Proof.
+  intros G. unfold label_request_h. rewrite G. destruct (s_mix s) as [[p w]|] eqn:Mx.
+  - intros E _.
+    destruct (to_one_hot_vector_h h (ds_cls ds idx) idx (ds_ncls ds)) as [[h1 a1]|] eqn:E1; [|discriminate].
+    destruct (to_one_hot_vector_h h1 (ds_cls ds p) p (ds_ncls ds)) as [[h2 a2]|] eqn:E2; [|discriminate].
+    destruct (to_one_hot_h_grows _ _ _ _ _ _ E1) as [e1 H1]. destruct (to_one_hot_h_grows _ _ _ _ _ _ E2) as [e2 H2].
+    unfold l_alloc in E. cbn in E. inversion E; subst. clear E.
+    repeat rewrite app_length. cbn. repeat split; try lia.
+    eexists. repeat rewrite <- app_assoc. reflexivity.
+  - intros E [K|[y Hy]]; [congruence|]. rewrite Hy in E.
+    destruct (to_one_hot_h_int_fresh _ _ _ _ _ _ E) as (Ha & v & _ & Hh). subst.
+    rewrite app_length. cbn. repeat split; try lia. eexists; reflexivity.
+Qed.
+
+(* everything that existed before the request -- stored labels, labels returned earlier and still alive, any table --
+   is what it was: the label statements never write into an existing object *)
+Lemma label_request_preserves_l ds c idx dr h h' a :
+  label_request_h ds c idx dr h = Some (h', a) ->
+  forall b, (b < length h)%nat -> lderef h' b = lderef h b.
+Proof.
+  unfold label_request_h. destruct (getitem_xclass ds c idx dr) as [[s rest]|]; [|discriminate].
+  assert (P : forall h0 ext b, (b < length h0)%nat -> lderef (h0 ++ ext) b = lderef h0 b)
+    by (intros; unfold lderef; apply app_nth1; auto).
+  destruct (s_mix s) as [[p w]|].
+  - destruct (to_one_hot_vector_h h (ds_cls ds idx) idx (ds_ncls ds)) as [[h1 a1]|] eqn:E1; [|discriminate].
+    destruct (to_one_hot_vector_h h1 (ds_cls ds p) p (ds_ncls ds)) as [[h2 a2]|] eqn:E2; [|discriminate].
+    destruct (to_one_hot_h_grows _ _ _ _ _ _ E1) as [e1 H1]. destruct (to_one_hot_h_grows _ _ _ _ _ _ E2) as [e2 H2].
+    unfold l_alloc. cbn. intro E. inversion E; subst. intros b Hb.
+    repeat rewrite <- app_assoc. apply P. exact Hb.
+  - intros E b Hb. destruct (to_one_hot_h_grows _ _ _ _ _ _ E) as [e1 H1]. subst. apply P. exact Hb.
+Qed.
+
+(* two requests served one after the other whose labels are both still alive: different objects *)
+Lemma successive_labels_distinct_l ds c i1 d1 i2 d2 h h1 a1 h2 a2 s2 r2 :
+  label_request_h ds c i1 d1 h = Some (h1, a1) -> (a1 < length h1)%nat ->
+  getitem_xclass ds c i2 d2 = Ok (s2, r2) ->
+  label_request_h ds c i2 d2 h1 = Some (h2, a2) ->
+  (s_mix s2 <> None \/ exists y, ds_cls ds i2 = LInt y) ->
+  a1 <> a2 /\ lderef h2 a1 = lderef h1 a1.
+Proof.
+  intros E1 L1 G2 E2 F2.
+  destruct (returned_label_is_fresh_l _ _ _ _ _ _ _ _ _ G2 E2 F2) as (Hge & _ & _).
+  split; [lia|]. eapply label_request_preserves_l; eauto.
+Qed.
+
+(* the returned label object holds the label the value-level model computes *)
+Lemma l_add_scale_mix w v v2 : l_add (l_scale w v) (l_scale (1 - w) v2) = mix_row w v v2.
+Proof.
+  unfold l_scale. revert v2. induction v as [|x v IH]; intros [|y v2]; cbn [map l_add mix_row]; try reflexivity.
+  f_equal. apply IH.
+Qed.
+
+Lemma to_one_hot_h_value ds h l k n h' a : lstore_wf ds h -> ds_cls ds k = l ->
+  to_one_hot_vector_h h l k n = Some (h', a) ->
+  exists v, to_one_hot_vector l n = Some v /\ lderef h' a = v /\ (a < length h')%nat.
+Proof.
+  intros W Hl. unfold to_one_hot_vector_h, l_alloc. destruct l as [y|v].
+  - destruct (to_one_hot_vector (LInt y) n) as [v|]; cbn; intro E; inversion E. exists v.
+    split; [reflexivity|]. split; [unfold lderef; apply nth_middle'|rewrite app_length; cbn; lia].
+  - intro E; inversion E; subst h' a. destruct (W k v Hl) as [L D]. exists v. cbn. auto.
+Qed.
+
+Lemma lstore_wf_app ds h ext : lstore_wf ds h -> lstore_wf ds (h ++ ext).
+Proof.
+  intros W k v Hk. destruct (W k v Hk) as [L D]. split; [rewrite app_length; lia|].
+  unfold lderef in *. rewrite app_nth1; auto.
+Qed.
+
+Lemma label_request_value_l ds c idx dr h h' a s rest : lstore_wf ds h ->
+  getitem_xclass ds c idx dr = Ok (s, rest) ->
+  label_request_h ds c idx dr h = Some (h', a) ->
+  lderef h' a = s_cls s.
+Proof.
+  intros W G. unfold label_request_h. rewrite G.
+  unfold getitem_xclass in G.
+  destruct dr as [|[apply| |] dr1]; try discriminate.
+  destruct (Qltb (total_p c) apply).
+  - destruct (to_one_hot_vector (ds_cls ds idx) (ds_ncls ds)) as [v|] eqn:T; [|discriminate].
+    inversion G; subst; cbn. intro E.
+    destruct (to_one_hot_h_value ds _ _ idx _ _ _ W eq_refl E) as (v' & T' & D & _). congruence.
+  - destruct dr1 as [|[|hi idx2|] dr2]; try discriminate.
+    destruct (negb (hi =? Z.of_nat (ds_len ds))); [discriminate|].
+    destruct (to_one_hot_vector (ds_cls ds idx) (ds_ncls ds)) as [v|] eqn:T; [|discriminate].
+    destruct (to_one_hot_vector (ds_cls ds (Z.to_nat idx2)) (ds_ncls ds)) as [v2|] eqn:T2; [|discriminate].
+    destruct (if Qltb apply (cutmix_p c) then cutmix_alpha c else mixup_alpha c) as [alpha|]; [|discriminate].
+    destruct dr2 as [|[| |al lamb] dr3]; try discriminate.
+    destruct (negb (Qeq_bool al alpha)); [discriminate|].
+    destruct (Qltb apply (cutmix_p c)); [discriminate|].
+    match type of G with (match ?u with Ok _ => _ | Err _ => _ end) = _ => destruct u as [x2u|]; [|discriminate] end.
+    inversion G; subst; cbn.
+    destruct (to_one_hot_vector_h h (ds_cls ds idx) idx (ds_ncls ds)) as [[h1 a1]|] eqn:E1; [|discriminate].
+    destruct (to_one_hot_vector_h h1 (ds_cls ds (Z.to_nat idx2)) (Z.to_nat idx2) (ds_ncls ds)) as [[h2 a2]|] eqn:E2; [|discriminate].
+    destruct (to_one_hot_h_value ds _ _ idx _ _ _ W eq_refl E1) as (v' & T' & D1 & L1).
+    destruct (to_one_hot_h_grows _ _ _ _ _ _ E1) as [e1 H1].
+    assert (W1 : lstore_wf ds h1) by (subst h1; apply lstore_wf_app; exact W).
+    destruct (to_one_hot_h_value ds _ _ (Z.to_nat idx2) _ _ _ W1 eq_refl E2) as (v2' & T2' & D2 & L2).
+    destruct (to_one_hot_h_grows _ _ _ _ _ _ E2) as [e2 H2].
+    assert (D1' : lderef h2 a1 = v') by (subst h2; unfold lderef in *; rewrite app_nth1; auto).
+    unfold l_alloc. intro E. inversion E; subst a h'. clear E.
+    assert (P : forall (h0 : lheap) t r, lderef (h0 ++ t :: r) (length h0) = t) by (intros; unfold lderef; apply nth_middle').
+    assert (Pl : forall (h0 ext : lheap) b, (b < length h0)%nat -> lderef (h0 ++ ext) b = lderef h0 b)
+      by (intros; unfold lderef; apply app_nth1; auto).
+    rewrite P.
+    rewrite (Pl (h2 ++ [l_scale lamb (lderef h2 a1)])) by (rewrite app_length; cbn; lia).
+    rewrite P.
+    rewrite (Pl h2 [l_scale lamb (lderef h2 a1)] a2 L2).
+    rewrite P. rewrite D1', D2. rewrite l_add_scale_mix. congruence.
+Qed.
